@@ -211,6 +211,7 @@ def h_network(ctx, nsw, nframes, buffers):
     ctx.check('handshake of switch %d completed' % i, con.connect_time is not None and net.nexus.getConnection(7 + i) is con)
   hist = {i: [] for i in range(nsw)}          # per switch: (source mac, port) in arrival order
   sightings = []                              # (source mac, host port) of every injected frame
+  swallowed = False                           # a cached *drop* flow (installed without in_port) consumed a frame the controller never saw: known finding
   for f in range(nframes):
     src = ctx.bytes('src%d' % f, 6); dst = ctx.bytes('dst%d' % f, 6)
     ctx.assume((src[0] & 1) == 0)
@@ -229,7 +230,7 @@ def h_network(ctx, nsw, nframes, buffers):
       sw.rx_packet(net.pkt.ethernet(raw), inport)
       net.pump()
       got = list(net.outs)
-      tag = 'frame %d at switch %d: ' % (f, s_)
+      tag = ('[after-drop-flow] ' if swallowed else '') + 'frame %d at switch %d: ' % (f, s_)
       ctx.check(tag + 'only the switch that received the frame emits it', all(x[0] == s_ for x in got))
       ports = [p for _, p, _ in got]
       ctx.check(tag + 'never out of the ingress port', all(p != inport for p in ports))
@@ -241,6 +242,7 @@ def h_network(ctx, nsw, nframes, buffers):
       if cached:
         ctx.witness('cached-flow'); cached_hit = True; all_flood = False
         outp = [a.port for a in cached[0].actions if isinstance(a, of.ofp_action_output)]
+        if not outp: swallowed = True
         ctx.check(tag + 'cached flow decides', sorted(ports) == sorted(int(x) for x in outp if int(x) != inport))
       elif bool(filtered):
         ctx.witness('filtered'); all_flood = False
@@ -257,7 +259,7 @@ def h_network(ctx, nsw, nframes, buffers):
           peer = net.links[(s_, p)]; queue.append(peer)
           if peer[0] != s_: ctx.witness('crossed-a-link')
         else: delivered.append((s_, p))
-    tag = 'frame %d end to end: ' % f
+    tag = ('[after-drop-flow] ' if swallowed else '') + 'frame %d end to end: ' % f
     ctx.check(tag + 'the journey ends (no forwarding loop)', not queue)
     ctx.check(tag + 'no host port receives the frame twice, the sending host never', len(delivered) == len(set(delivered)) and hp not in delivered)
     if all_flood and not cached_hit:
